@@ -230,6 +230,7 @@ func valuesGen(tier string, r *rng, emit func(string)) {
 			valuesExhaustive([]string{valuesPrelude, "a = " + vsMapLit(n, 1)}, mapOps, 3, emit)
 		}
 	}
+	valuesGenExtra(tier, r, emit) // second vocabulary (valsem2.go)
 	// random long histories
 	nr := 300
 	if thorough {
